@@ -108,5 +108,6 @@ def check(repo: Repo, rep: Report) -> None:
                f"{f.qual}: completing without any element and without a default does not fail with SequenceContainsNoElementsError")
     sg = repo.fn("reactivex/operators/_singleordefault.py", "single_or_default_async_.single_or_default_async.subscribe.on_next")
     second = [s for s in sites(sg) if isinstance(s.node, ast.Call) and dotted(s.node.func) == "observer.on_error"]
-    ok = len(second) == 1 and any(isinstance(e, ast.Name) and p for e, p in second[0].ctx.guards)
+    from ..rules import cell_name as _cn
+    ok = len(second) == 1 and any(isinstance(e, (ast.Name, ast.Subscript)) and _cn(e) and p for e, p in second[0].ctx.guards)
     rep.ob("K5-error-kinds", sg, "single: second element -> on_error", ok, "single does not fail when a second element arrives")
